@@ -67,16 +67,21 @@ BootInitCid(now, disk) == BeginCid(now, BootMem(now, disk))
 \*   MemFields   server-wide settings held in memory:
 \*               sch = schema knows the attribute      acp = the access decision the profile grants
 \*               dn  = domain display name in use      oa  = OAuth2 client known to the IDM layer
+\*               ruv = the replication update vector the reader holds (number of change ids, greatest one)
+\*               ixm = the index metadata the reader resolves filters with (number of keys, new attribute indexed)
 DiskFields == {"ent", "sche", "acpe", "oae", "dne"}
 BeFields   == {"idx"}
-MemFields  == {"sch", "acp", "dn", "oa"}
+MemFields  == {"sch", "acp", "dn", "oa", "ruv", "ixm"}
 DiskPart(v) == [f \in DiskFields |-> v[f]]
 DiffFields(a, b) == {f \in DOMAIN a : a[f] # b[f]}
 
 \* ----------------------------- B / L1 -----------------------------------
 \* C04: a transaction that did not report success leaves everything readers use exactly as it
 \* was - on the live server (pre = observation at Begin) and on a server reopened on the file.
-NoTrace(pre, live, reopen) == live = pre /\ reopen = DiskPart(pre)
+\* ... and nothing of it surfaces later: after one following SUCCESSFUL transaction readers see exactly
+\* what that transaction alone would have produced (follow = the same follow-up after a dropped
+\* transaction), and so does a server reopened on the file afterwards.
+NoTrace(pre, live, live2, follow, reopen) == live = pre /\ live2 = follow /\ reopen = DiskPart(follow)
 \* C05: after a crash at any point the reopened server shows the complete before state or the
 \* complete after state (never a mixture), passes its own consistency check, and the next change
 \* identifier is above every identifier it had committed (cmax = greatest stamped identifier
@@ -153,8 +158,8 @@ Changed(kind) == CASE kind \in {"schema", "schemaidx"} -> {"schema", "cid", "be"
                    [] OTHER           -> {"cid", "be", "ruv"}
 \* the settings the property lists, and the observation field that probes each
 \* (key material has no probe in this driver; cid / filter cache / phase are not reader-visible settings)
-VisibleComps == {"schema", "acp", "dinfo", "oauth2"}
-FieldOf == [schema |-> "sch", acp |-> "acp", dinfo |-> "dn", oauth2 |-> "oa"]
+VisibleComps == {"schema", "acp", "dinfo", "oauth2", "ruv", "idxmeta"}
+FieldOf == [schema |-> "sch", acp |-> "acp", dinfo |-> "dn", oauth2 |-> "oa", ruv |-> "ruv", idxmeta |-> "ixm"]
 
 \* components already published when storage step number i fails
 AheadAt(kind, i) == Changed(kind) \cap PublishedBefore(i) \cap VisibleComps
